@@ -48,6 +48,8 @@ func checkC14(c *Ctx) {
 	c.Clause("the recorded status is delivered on every completion path: by Write, by Flush and after the handler returns without a body")
 	c.Clause("Hijack and Flush are forwarded")
 	c.Clause("both limits accept int/int64/float64 and reject ≤ 0")
+	c.Clause("a response is refused (413, latch) only on a path that found written+len(b) > limit — never for a declared length alone (HEAD, 304) — and the 413 is flushed at once, because the failing Write makes the reverse proxy abort the connection and net/http drops a status that is only buffered")
+	c.Clause("a later status replaces an earlier unsent one (1xx then final); Write does not retain the caller's slice; exchanges within the limits leave status, headers and body calls untouched")
 	c.NotDecided("all partitions of a body into writes (each Write is checked against the running total); behaviour of http.MaxBytesReader")
 
 	w := c.wrapperNamed("plugins.limitedResponseWriter")
@@ -404,6 +406,8 @@ func checkC15(c *Ctx) {
 	c.Clause("gzip.NewWriterLevel is reached only when: Accept-Encoding contained the gzip token, len(body) ≥ min_size, the content type matched, the buffer cap was not exceeded, and the response's own Content-Encoding was consulted and empty")
 	c.Clause("every other path writes the buffered body to the embedded writer unchanged, exactly once, with no header mutation")
 	c.Clause("Hijack/Flush forwarded; level range −1..9; numeric options accept int/int64/float64")
+	c.Clause("an empty body (204, 304, reply to HEAD) is never compressed, whatever min_size says; above the buffering cap everything buffered and everything that follows is passed through, in order, after the recorded status")
+	c.Clause("the recorded status is delivered on every completion path and a later status replaces an earlier unsent one; the buffer starts empty per request; Write copies the caller's bytes")
 	c.NotDecided("that gzip output inflates to the input (compress/gzip trusted); incompressible payloads; q-values in Accept-Encoding")
 
 	w := c.wrapperNamed("plugins.gzipResponseWriter")
